@@ -55,6 +55,11 @@ def change_asset(a, k, prices, memo):
         for key in ('min_runtime', 'min_downtime', 'time_already_running', 'time_already_off'):
             if key in a:
                 a[key] = a[key] / k
+        for key in ('ramp', 'last_dispatch'):       # rates per main time unit (the ramp: change of the rate per step)
+            if a.get(key) is not None:
+                a[key] = a[key] * k
+        if 'running_costs' in a:                    # costs per main time unit while on
+            a['running_costs'] = scale_param(a['running_costs'], k, prices, memo)
     elif kind == 'OrderBook':
         a['orders']['capa'] = [c * k for c in a['orders']['capa']]
     elif kind == 'ScaledAsset':
@@ -160,6 +165,10 @@ def run(ctx):
     # take periods of contracts that start after the grid start, on daily grids with a day of 23 h / 25 h
     specs += gen.gen_many(ctx.seed, n // 4, dict(CFG, freqs=['d'], tzs=['CET'], p_dst=1.0, T=(4, 8), p_coarse=0.0, p_periodic=0.0, p_window=0.9, window_kinds=['right', 'inside', 'right'],
                                                  kinds={'Contract': 4, 'ExtendedTransport': 1, 'SimpleContract': 1}, nodes=(1, 2), n_assets=(1, 3)), 'c12tk_')
+    # weekly assets on daily grids over the week of a clock change (minor steps of 23 h / 25 h inside one coarse step)
+    wk = [{'start': s0, 'end': e0, 'freq': 'd', 'unit': u, 'tz': 'CET'} for s0, e0 in (('2021-03-22 00:00', '2021-04-05 00:00'), ('2021-10-25 00:00', '2021-11-08 00:00')) for u in ('h', 'd')]
+    specs += gen.gen_many(ctx.seed, 6 if ctx.tier == 'quick' else 30, dict(CFG, grids=wk, p_coarse=1.0, coarse_freqs=['7d'], p_window=0.0, p_max_store=0.0, p_no_simult=0.0, p_periodic=0.0,
+                                                                           kinds={'SimpleContract': 2, 'Transport': 1, 'Storage': 1}, nodes=(1, 2), n_assets=(1, 2)), 'c12wk_')
     # plants (unit commitment): minimum run / down times and the time already running / off are durations in the main time unit
     # (described in hours, re-expressed in minutes: exact in floating point)
     pl = gen.gen_many_plants(ctx.seed, n // 3, dict(CFG, freqs=['h', '30min', '15min'], units=['h'], tzs=[None], T=(5, 9), p_unaligned_end=0.0, p_profile=0.0, p_fuel=0.0, p_chp=0.0,
@@ -167,8 +176,7 @@ def run(ctx):
     for i_, sp in enumerate(pl):
         for a in sp['assets']:
             if a['kind'] == 'Plant':
-                for key in ('ramp', 'last_dispatch', 'running_costs'):
-                    a.pop(key, None)
+                pass
                 if sp['grid']['freq'] != 'h' and i_ % 2:
                     # durations of at most one main time unit that span several steps
                     if 'min_downtime' in a:
